@@ -177,6 +177,18 @@ class VLoop(asyncio.BaseEventLoop):
                 raise RuntimeError("run_until_idle(): too many iterations")
 
     # -- teardown ----------------------------------------------------------------
+    def escaped_callback_exceptions(self, start: int = 0) -> list[str]:
+        """Exceptions that escaped from a loop callback (a protocol callback such as data_received / connection_lost, a done
+        callback, a call_soon'ed function) since log position ``start``.  GC-timed reports ("... was never retrieved") are not
+        included: when they appear is not deterministic."""
+        out = []
+        for ctx in self.exc_log[start:]:
+            msg = str(ctx.get("message", ""))
+            exc = ctx.get("exception")
+            if exc is not None and msg.startswith("Exception in callback"):
+                out.append(f"{type(exc).__name__}: {exc} ({msg[:90]})")
+        return out
+
     def drain_exc_log(self) -> list[dict]:
         gc.collect(1)
         return self.exc_log
